@@ -115,7 +115,9 @@ func (fg *FnGen) callWrites(x ssa.CallInstruction, set map[string]bool, all *boo
 	for _, m := range fg.monitors {
 		for _, r := range m.Rules {
 			if r.Kind == "after" && matchAny(r.Callees, d) {
-				set["ghost:"+m.Ghost] = true
+				for _, gs := range r.Sets {
+					set["ghost:"+gs.Name] = true
+				}
 			}
 		}
 	}
@@ -232,7 +234,11 @@ func (fg *FnGen) doCall(fr *Frame, site ssa.Instruction, c *ssa.CallCommon, st *
 	if c.IsInvoke() {
 		args = append(args, fg.val(fr, c.Value))
 		argTypes = append(argTypes, c.Value.Type())
-		fg.safety("nil", reach, Neq(ITag(args[0]), IntLit(0)), pos)
+		if fg.g.contractFor(d) == nil && fg.g.isPure(d) {
+			fg.g.useTrusted("receivers of effects-list interface calls (tracer, span, logger, metrics, context) are non-nil")
+		} else {
+			fg.safety("nil", reach, Neq(ITag(args[0]), IntLit(0)), pos)
+		}
 	}
 	for _, a := range c.Args {
 		args = append(args, fg.val(fr, a))
@@ -263,7 +269,27 @@ func (fg *FnGen) dispatchCall(fr *Frame, site ssa.Instruction, c *ssa.CallCommon
 		return fg.freshResults(fr, name, d.sig), st
 	}
 	if d.static != nil && fg.inlineable(d.static, fr.depth) && !fg.onStack(fr, d.static) {
+		fg.pendingBindings = nil
+		if mc, ok := c.Value.(*ssa.MakeClosure); ok {
+			for _, b := range mc.Bindings {
+				fg.pendingBindings = append(fg.pendingBindings, fg.val(fr, b))
+			}
+		}
 		return fg.inline(fr, d.static, args, st, reach, name)
+	}
+	// a callee that receives only value-typed arguments (no pointers, slices, maps, interfaces, funcs) cannot reach the
+	// caller's objects except through package-level state
+	if d.static != nil && len(d.static.FreeVars) == 0 {
+		allValues := true
+		for _, t := range argTypes {
+			if !valueOnly(t, 0) {
+				allValues = false
+			}
+		}
+		if allValues {
+			fg.g.useTrusted("calls that pass only value-typed arguments leave the caller-visible heap unchanged: " + d.short)
+			return fg.freshResults(fr, name, d.sig), st
+		}
 	}
 	// unknown callee: results arbitrary, heap arbitrary
 	fg.note("call to " + d.short + " havocs the heap (no contract, not inlineable, not on the effects list)")
@@ -271,12 +297,15 @@ func (fg *FnGen) dispatchCall(fr *Frame, site ssa.Instruction, c *ssa.CallCommon
 }
 
 func (fg *FnGen) onStack(fr *Frame, f *ssa.Function) bool {
-	return strings.Contains(fr.prefix, "|"+f.Name()+"|") || (fr.fn == f)
+	return strings.Contains(fr.prefix, "~"+f.Name()+"~") || (fr.fn == f)
 }
 
 func (fg *FnGen) inlineable(f *ssa.Function, depth int) bool {
 	if v, ok := fg.g.inlineCache[f]; ok {
 		return v && depth < 5
+	}
+	if len(f.Blocks) == 0 && f.Pkg != nil {
+		f.Pkg.Build() // on-demand SSA construction of dependency packages (idempotent)
 	}
 	ok := true
 	if len(f.Blocks) == 0 || f.Recover != nil {
@@ -313,12 +342,18 @@ func (fg *FnGen) inlineable(f *ssa.Function, depth int) bool {
 
 func (fg *FnGen) inline(fr *Frame, f *ssa.Function, args []*Term, st *State, reach *Term, name string) ([]*Term, *State) {
 	fg.fresh++
-	sub := fg.newFrame(f, fr.depth+1, fmt.Sprintf("%s%s#%d|%s|", fr.prefix, name, fg.fresh, f.Name()))
+	sub := fg.newFrame(f, fr.depth+1, fmt.Sprintf("%s%s#%d~%s~", fr.prefix, name, fg.fresh, f.Name()))
 	for i, p := range f.Params {
 		if i < len(args) {
 			sub.vals[p] = args[i]
 		}
 	}
+	for i, fv := range f.FreeVars {
+		if i < len(fg.pendingBindings) {
+			sub.vals[fv] = fg.pendingBindings[i]
+		}
+	}
+	fg.pendingBindings = nil
 	fg.runBlocks(sub, st, reach)
 	fg.g.inlined[f.String()] = true
 	if len(sub.rets) == 0 {
@@ -611,9 +646,9 @@ func (fg *FnGen) appendBuiltin(fr *Frame, c *ssa.CallCommon, args []*Term, st *S
 	newBase := fg.freshConst(fr.prefix+name+"_nb", SInt)
 	fg.assume(Gt(newBase, fg.refLimit()))
 	for _, a := range fg.allocs {
-		fg.assume(Neq(newBase, a))
+		fg.assume(Gt(newBase, a))
 	}
-	fg.allocs = append(fg.allocs, newBase)
+	fg.allocs = []*Term{newBase}
 	if len(args) == 1 {
 		return []*Term{s}, st
 	}
@@ -858,83 +893,6 @@ func (fg *FnGen) lastIndexByte(s, c *Term, name string) *Term {
 }
 
 // ---------------------------------------------------------------- monitors
-
-func (fg *FnGen) monitorBefore(fr *Frame, d callDesc, args []*Term, st *State, reach *Term, pos token.Pos) {
-	if !fr.top && false {
-		return
-	}
-	for _, m := range fg.monitors {
-		for _, r := range m.Rules {
-			if r.Kind != "before" {
-				continue
-			}
-			hit := matchAny(r.Callees, d)
-			via := ""
-			if !hit && d.static != nil {
-				if w := fg.g.mayReach(d.static, r.Callees); w != "" {
-					hit, via = true, w
-				}
-			}
-			if !hit {
-				continue
-			}
-			env := fg.baseEnv(fr, st)
-			env.vars[m.Ghost] = CVal{T: fg.lookup(st, "ghost:"+m.Ghost, fg.ghostSort(m)), Ty: nil}
-			for i, n := range r.ArgBind {
-				if i < len(args) && n != "_" {
-					env.vars[n] = CVal{T: args[i]}
-				}
-			}
-			v, err := env.evalBool(r.Assert)
-			k := fg.ordinal("monitor:" + m.Name + "@" + d.short)
-			label := fmt.Sprintf("monitor:%s@%s:%d", m.Name, d.short, k)
-			if err != nil {
-				fg.bindFailure(label, err, pos)
-				continue
-			}
-			o := fg.addObl("monitor", label, reach, v, pos, r.Src)
-			if o != nil && via != "" {
-				o.Note = "callee may reach " + via
-			}
-		}
-	}
-}
-
-func (fg *FnGen) ghostSort(m *Monitor) string {
-	if s, ok := fg.stateSorts["ghost:"+m.Ghost]; ok {
-		return s
-	}
-	return SBool
-}
-
-func (fg *FnGen) monitorAfter(fr *Frame, d callDesc, args, res []*Term, st *State, reach *Term) *State {
-	for _, m := range fg.monitors {
-		for _, r := range m.Rules {
-			if r.Kind != "after" || !matchAny(r.Callees, d) {
-				continue
-			}
-			env := fg.baseEnv(fr, st)
-			cur := fg.lookup(st, "ghost:"+m.Ghost, fg.ghostSort(m))
-			env.vars[m.Ghost] = CVal{T: cur}
-			if r.Ret != "" && len(res) > 0 {
-				env.vars[r.Ret] = CVal{T: res[len(res)-1], Ty: d.sig.Results().At(len(res) - 1).Type()}
-			}
-			for i, n := range r.ArgBind {
-				if i < len(args) && n != "_" {
-					env.vars[n] = CVal{T: args[i]}
-				}
-			}
-			v, err := env.eval(r.Set)
-			if err != nil {
-				fg.bindFailure("monitor:"+m.Name+":set", err, token.NoPos)
-				continue
-			}
-			st = st.clone()
-			fg.set(st, "ghost:"+m.Ghost, cur.Sort, v.T)
-		}
-	}
-	return st
-}
 
 func (fg *FnGen) monitorSend(fr *Frame, x *ssa.Send, st *State, reach *Term) {
 	d := callDesc{short: "send", full: "send"}
